@@ -134,9 +134,9 @@ StartOK(t, i, real, lax) ==
 
 \* the parts of t in which a match may lie
 Regions(t, real, lax) ==
-  {SubSeq(t, x[1], x[2]) :
-     x \in {y \in (1..(Len(t) + 1)) \X (0..Len(t)) :
-              y[2] >= y[1] - 1 /\ StartOK(t, y[1], real, lax) /\ EndOK(t, y[2], lax)}}
+  LET starts == {i \in 1..(Len(t) + 1) : StartOK(t, i, real, lax)}
+      ends   == {j \in 0..Len(t) : EndOK(t, j, lax)}
+  IN {SubSeq(t, x[1], x[2]) : x \in {y \in starts \X ends : y[2] >= y[1] - 1}}
 
 (***************************************************************************)
 (* Trailing separator: "the final path component of the pattern only        *)
@@ -234,14 +234,15 @@ LawCanon(s) ==
 
 Modes == {"reg", "dir"}
 
-\* L2 the verdict does not depend on how the path or the pattern is spelled (a trailing separator of the
-\*    pattern and its class are significant, so re-spellings that change them are not required to be neutral)
-LawRespell(p, t, base) ==
-  \A mode \in Modes :
-    /\ \A t2 \in Respellings(t) : IsAbs(t2) = IsAbs(t) => Verdict(p, t2, base, mode) = Verdict(p, t, base, mode)
-    /\ \A p2 \in Respellings(p) :
-         (IsAbs(p2) = IsAbs(p) /\ IsRelPattern(p2) = IsRelPattern(p) /\ Trailing(p2) = Trailing(p))
-            => Verdict(p2, t, base, mode) = Verdict(p, t, base, mode)
+\* L2 the verdict does not depend on how the path or the pattern is spelled: Verdict is a function of
+\*    PatInfo and PathInfo, and these are blind to re-spelling (a trailing separator of the pattern and its
+\*    class are significant, so re-spellings that change them are not required to be neutral)
+LawRespellPath(t, base) ==
+  \A t2 \in Respellings(t) : IsAbs(t2) = IsAbs(t) => PathInfo(t2, base) = PathInfo(t, base)
+LawRespellPat(p, base) ==
+  \A p2 \in Respellings(p) :
+     (IsAbs(p2) = IsAbs(p) /\ IsRelPattern(p2) = IsRelPattern(p) /\ Trailing(p2) = Trailing(p))
+        => PatInfo(p2, base) = PatInfo(p, base)
 
 \* L3 widening a wildcard never loses a match: '?' -> '*', '*' -> '**'
 Widen(p) == {SubSeq(p, 1, i - 1) \o <<"*">> \o SubSeq(p, i + 1, Len(p)) : i \in {k \in DOMAIN p : p[k] = "?"}}
@@ -267,11 +268,14 @@ LawLiteral(p, t, base) ==
 LawBelow(p, t, base) ==
     /\ (t # <<>> /\ Last(t) # Sep /\ ~RootPattern(p, base) /\ ~Undocumented(p, t, base) /\ Must(p, t, base, "dir")) =>
           \A mode \in Modes : Must(p, t \o <<Sep, "x">>, base, mode)
+    /\ (t # <<>> /\ Last(t) # Sep /\ ~Undocumented(p, t, base) /\ May(p, t, base, "dir")) =>
+          \A mode \in Modes : May(p, t \o <<Sep, "x">>, base, mode)
     /\ ~Trailing(p) => Verdict(p, t, base, "reg") = Verdict(p, t, base, "dir")
     /\ (~Undocumented(p, t, base) /\ Must(p, t, base, "reg")) => May(p, t, base, "dir")
     /\ \A mode \in Modes : Must(p, t, base, mode) => May(p, t, base, mode)
 
 \* the counterexamples of a law over a domain
 Refuting1(L(_), S) == {s \in S : ~L(s)}
+Refuting2(L(_, _), S, B) == {x \in S \X B : ~L(x[1], x[2])}
 Refuting3(L(_, _, _), P, T, B) == {x \in P \X T \X B : ~L(x[1], x[2], x[3])}
 =============================================================================
